@@ -2,6 +2,7 @@ CONSTANTS NP = 4
  NT = 2
  NF = 2
  NA = 3
+ NC = 3
  Light = FALSE
 INIT Init
 NEXT Eval
@@ -9,6 +10,8 @@ INVARIANT OnJointIndex
 INVARIANT ValuesIntact
 INVARIANT AsOfJoin
 INVARIANT ColumnsAligned
+INVARIANT ColumnPolicy
+INVARIANT DictOrderKept
 INVARIANT StructureKept
 INVARIANT Idempotent
 INVARIANT PolicyOrder
